@@ -26,6 +26,7 @@ RULE = (
     "envelope of all rectangles whose x-interval contains the point, must equal the returned bands (1e-12).  W1: identity / replacement / single_pass / dynamic / by_label samplers, quantile/bc/bca, alpha in {.05,.2,.5}, all "
     "supply combinations, nb_points in {None,2,5,10,21}, easy counts, <= 40 scores per class (+ 130-150), 4 cfg. fixed_width_band_ci only on "
     "supports spanning the curve (nb_points >= 3 or None). Non-trivial: always (both classes non-empty); distinct = hash of inputs and seed."
+    ' Build-phase additions: one large curve per run (8500-8800 scores, 1000 replicates), numpy-integer arguments, documented-default relation for the band functions.'
 )
 ASSUMPTIONS = ["both classes non-empty, finite scores, alpha in (0,1)", "threshold setting and rates on the samples are taken from the library (decided by C01-C03)",
                "the C13 reference model for the interval formula"]
